@@ -477,7 +477,15 @@ class Engine:
         if k == 'bin':
             return s.binop(c.op, c.ty, s.const(st, fr, c.a), s.const(st, fr, c.b))
         if k == 'float' or k == 'fhex':
-            raise Unsupported('float const')
+            # floating-point values are carried as raw IEEE bit patterns (load/store/copy only; arithmetic on them is unsupported)
+            txt = str(c.v)
+            try:
+                if txt.lower().startswith('0x'): d = struct.unpack('<d', struct.pack('<Q', int(txt, 16)))[0]
+                else: d = float(txt)
+            except Exception: raise Unsupported('float const ' + txt)
+            t = s.res(c.ty)
+            if isinstance(t, TFloat) and getattr(t, 'kind', '') == 'float': return struct.unpack('<I', struct.pack('<f', d))[0]
+            return struct.unpack('<Q', struct.pack('<d', d))[0]
         raise Unsupported('const ' + k)
     def zero(s, t):
         t = s.res(t)
@@ -1755,6 +1763,14 @@ def m_localeconv(e, st, args):
 def m_strerror(e, st, args):
     if not hasattr(st, 'strerr'): st.strerr = e.alloc(st, 8, 'global'); e.store_bytes(st, st.strerr, [ord('e'), ord('r'), ord('r'), 0, 0, 0, 0, 0])
     return st.strerr
+def m_need_rehash(e, st, args):      # std::__detail::_Prime_rehash_policy::_M_need_rehash(n_bkt, n_elt, n_ins) -> pair<bool, size_t>
+    this, n_bkt, n_elt, n_ins = [e.concretize(st, a) if is_sym(a) else a for a in args]
+    if n_elt + n_ins > n_bkt:
+        nb = max(2 * n_bkt + 1, n_elt + n_ins, 13); e.store(st, this + 8, I64, nb); return [1, nb]      # (bucket count need not be prime for correctness)
+    return [0, 0]
+def m_next_bkt(e, st, args):
+    n = e.concretize(st, args[1]) if is_sym(args[1]) else args[1]; nb = max(n | 1, 13); e.store(st, args[0] + 8, I64, nb); return nb
+BUILTIN_MODELS.update({'_ZNKSt8__detail20_Prime_rehash_policy14_M_need_rehashEmmm': m_need_rehash, '_ZNKSt8__detail20_Prime_rehash_policy11_M_next_bktEm': m_next_bkt})
 BUILTIN_MODELS.update({'localeconv': m_localeconv, 'strerror': m_strerror})
 BUILTIN_MODELS.update({'gettimeofday': m_gettimeofday})
 BUILTIN_MODELS.update({'getcontext': m_getcontext, 'makecontext': m_makecontext, 'swapcontext': m_swapcontext})
